@@ -171,6 +171,211 @@ def arith32():
     return n, bad
 
 
+# ----------------------------------------------------------------------------- RTP side: lanes differing only in origins
+RTP_ORIGINS = [(1000, 90000), (65530, 2 ** 32 - 4000), (65535, 2 ** 32 - 1), (32760, 2 ** 31 - 2000)]
+
+
+def jitter_lane_tasks(tier):
+    from props import c10
+    tasks = []
+    depth = 4 if tier == "quick" else 5
+    for cap in (4, 16, 128):
+        for prefetch in (0, 4):
+            for video in (False, True):
+                for pattern in ([1, 3, 2], [8]):
+                    for prefill in ("empty", "cap+3"):
+                        if tier == "quick":
+                            tasks.append(((cap, prefetch, video), pattern, RTP_ORIGINS, prefill, depth, None))
+                        else:
+                            for sym in c10.alphabet(cap):
+                                tasks.append(((cap, prefetch, video), pattern, RTP_ORIGINS, prefill, depth, [sym]))
+    return tasks
+
+
+NACK_STEPS = [1, 2, 5, 0, -1, -3, 17, 130, 300, -129]
+
+
+def nack_lanes(task):
+    """Every arrival sequence of length <= depth over NACK_STEPS on real NackGenerators that differ only in the origin."""
+    import aiortc.rtcrtpreceiver as RX
+    from aiortc.rtp import RtpPacket
+    from vt.enumcheck import Tally
+    import copy
+    depth, firsts = task
+    T = Tally()
+    origins = [o for o, _ in RTP_ORIGINS]
+    nodes = 0
+    hist = []
+
+    def rec(gens, highest, d):
+        nonlocal nodes
+        for st in (NACK_STEPS if d > 0 else firsts):
+            ext = highest + st
+            outs = []
+            g2s = []
+            hist.append(st)
+            nodes += 1
+            bad = None
+            for g, o in zip(gens, origins):
+                g2 = copy.copy(g)
+                g2.missing = set(g.missing)
+                try:
+                    missed = g2.add(RtpPacket(sequence_number=(o + ext) % 65536))
+                    outs.append((missed, tuple(sorted((x - o) % 65536 for x in g2.missing)), (g2.max_seq - o) % 65536))
+                except Exception as e:
+                    outs.append(("raised %s" % type(e).__name__, str(e)))
+                g2s.append(g2)
+            if any(x != outs[0] for x in outs[1:]):
+                k = next(i for i, x in enumerate(outs) if x != outs[0])
+                bad = "loss detection from first sequence number %d gives %r, from %d gives %r" % (
+                    origins[0], _trim(outs[0]), origins[k], _trim(outs[k]))
+            elif len(outs[0]) == 3 and len(outs[0][1]) > 128:
+                bad = "%d sequence numbers tracked as missing (history is 128)" % len(outs[0][1])
+            if bad:
+                T.violation("origin/nack-differs", "origin/nack-differs", "%s [arrival offsets %r]" % (bad, list(hist)),
+                            dict(kind="nack-lanes", steps=list(hist)))
+            elif d + 1 < depth:
+                rec(g2s, max(highest, ext), d + 1)
+            hist.pop()
+
+    gens = []
+    for o in origins:
+        g = RX.NackGenerator()
+        g.add(RtpPacket(sequence_number=o % 65536))
+        gens.append(g)
+    rec(gens, 0, 0)
+    T.case(None, nodes)
+    T.transitions = nodes * len(origins)
+    T.count("nack-lane-nodes", nodes)
+    return T
+
+
+def _trim(x):
+    s = repr(x)
+    return s if len(s) < 120 else s[:120] + "..."
+
+
+def stats_lanes(task):
+    """Arrival/report histories on real StreamStatistics objects that differ only in first sequence number / timestamp."""
+    import copy
+    import aiortc.rtcrtpreceiver as RX
+    from aiortc.rtp import RtpPacket
+    from props import c18
+    from vt.enumcheck import Tally
+    depth, firsts = task
+    T = Tally()
+    clock = c18.Clock()
+    c18.install_seams(clock)
+    names = c18.STAT_NAMES
+    hist = []
+    nodes = 0
+    try:
+        def rec(sts, his, now, d):
+            nonlocal nodes
+            for name in (names if d > 0 else firsts):
+                sym = c18.SYM[name]
+                hist.append(name)
+                nodes += 1
+                outs = []
+                st2s, hi2s = [], []
+                now2 = now
+                for st, hi, (s0, t0) in zip(sts, his, RTP_ORIGINS):
+                    st2 = copy.copy(st)
+                    hi2 = hi
+                    try:
+                        if sym is None:
+                            outs.append(None if st2.max_seq is None else
+                                        (st2.fraction_lost, st2.packets_lost, st2.jitter, st2.cycles + st2.max_seq - st2.base_seq))
+                        else:
+                            dseq, dts, dclk, _ = sym
+                            now2 = now + dclk
+                            if hi is None:
+                                seq, ts = s0, t0
+                                hi2 = (seq, ts)
+                            else:
+                                seq, ts = (hi[0] + dseq) % 65536, (hi[1] + dts) % M32
+                                if 0 < dseq < 0x8000:
+                                    hi2 = (seq, ts)
+                            clock.now = now2
+                            st2.add(RtpPacket(sequence_number=seq, timestamp=ts, ssrc=1))
+                            outs.append((st2.packets_received, st2.packets_lost, st2.jitter, st2.packets_expected))
+                    except Exception as e:
+                        outs.append(("raised", type(e).__name__, str(e)))
+                    st2s.append(st2)
+                    hi2s.append(hi2)
+                if any(x != outs[0] for x in outs[1:]):
+                    k = next(i for i, x in enumerate(outs) if x != outs[0])
+                    T.violation("origin/statistics-differ", "origin/statistics-differ",
+                                "receiver statistics from start %r give %r, from start %r give %r [history %r]" % (
+                                    RTP_ORIGINS[0], outs[0], RTP_ORIGINS[k], outs[k], list(hist)),
+                                dict(kind="stats-lanes", history=list(hist)))
+                elif d + 1 < depth:
+                    rec(st2s, hi2s, now2, d + 1)
+                hist.pop()
+        rec([RX.StreamStatistics(c18.CLOCKRATE) for _ in RTP_ORIGINS], [None] * len(RTP_ORIGINS), c18.EPOCH, 0)
+    finally:
+        c18.remove_seams()
+    T.case(None, nodes)
+    T.transitions = nodes * len(RTP_ORIGINS)
+    T.count("stats-lane-nodes", nodes)
+    return T
+
+
+TS_STEPS = [3000, 0, 90000, 1, 2 ** 31 - 1, -3000]
+
+
+def tsmap_lanes(task):
+    import copy
+    import aiortc.rtcrtpreceiver as RX
+    from vt.enumcheck import Tally
+    depth = task
+    T = Tally()
+    origins = [t for _, t in RTP_ORIGINS] + [0, 2 ** 32 - 3000]
+    nodes = 0
+    import itertools
+    for L in range(1, depth + 1):
+        for steps in itertools.product(TS_STEPS, repeat=L):
+            nodes += 1
+            outs = []
+            for t0 in origins:
+                m = RX.TimestampMapper()
+                ts = t0
+                o = [m.map(ts)]
+                for st in steps:
+                    ts = (ts + st) % M32
+                    o.append(m.map(ts))
+                outs.append(o)
+            # only forward steps define a wrap-free expectation; compare lanes on sequences without backward steps
+            if all(st >= 0 for st in steps) and any(x != outs[0] for x in outs[1:]):
+                k = next(i for i, x in enumerate(outs) if x != outs[0])
+                T.violation("origin/timestamp-mapping-differs", "origin/timestamp-mapping-differs",
+                            "steps %r: from timestamp %d mapped to %r, from %d to %r" % (list(steps), origins[0], outs[0], origins[k], outs[k]),
+                            dict(kind="tsmap", steps=list(steps)))
+            want = [0]
+            for st in steps:
+                want.append(want[-1] + st)
+            if all(st >= 0 for st in steps) and outs[0] != want:
+                T.violation("origin/timestamp-mapping", "origin/timestamp-mapping", "steps %r mapped to %r" % (list(steps), outs[0]),
+                            dict(kind="tsmap", steps=list(steps)))
+    T.case(None, nodes)
+    T.transitions = nodes * len(origins)
+    T.count("tsmap-nodes", nodes)
+    return T
+
+
+def run_rtp(tier, seed):
+    from vt.enumcheck import pmap, Tally
+    total = Tally()
+    total.merge(pmap("props.c10", "walk", jitter_lane_tasks(tier), seed=seed))
+    nd = 5 if tier == "quick" else 6
+    total.merge(pmap("props.c17", "nack_lanes", [(nd, [s]) for s in NACK_STEPS], seed=seed))
+    from props import c18
+    sd = 4 if tier == "quick" else 5
+    total.merge(pmap("props.c17", "stats_lanes", [(sd, [n]) for n in c18.STAT_NAMES], seed=seed))
+    total.merge(pmap("props.c17", "tsmap_lanes", [5 if tier == "quick" else 6], seed=seed))
+    return total
+
+
 def run(tier, seed):
     sb = QUICK if tier == "quick" else THOROUGH
     res = run_sched(
@@ -179,11 +384,23 @@ def run(tier, seed):
              "only in origins (initial TSNs 2^32-1/-3/-8 on either side, hence RE-CONFIG sequence numbers; stream "
              "sequence counters preset to 65533..65535 on both ends): enabled-event menus, observation logs without raw "
              "sequence numbers, queue/flight/reassembly shapes and terminal verdicts must be identical; plus exhaustive "
-             "serial-number arithmetic (16-bit: all a x all/boundary offsets; 32-bit: boundary product)",
+             "serial-number arithmetic (16-bit: all a x all/boundary offsets; 32-bit: boundary product); RTP side: the real "
+             "JitterBuffer (C10 arrival tree), NackGenerator, StreamStatistics and TimestampMapper are driven in lockstep lanes that "
+             "differ only in first sequence number / timestamp origin (1000/90000, 65530/2^32-4000, 65535/2^32-1, 32760/2^31-2000) "
+             "over complete arrival trees; every output must be identical across lanes",
         assumptions=["deviation bound k", "DTLS stand-in", "send never suspends"])
+    rtp = run_rtp(tier, seed)
+    cov = res["coverage"]
+    cov["rtp_lane_nodes"] = rtp.evaluations
+    cov["rtp_lane_comparisons"] = rtp.transitions
+    cov["rtp_counters"] = dict(rtp.counters)
+    cov["transitions"] += rtp.transitions
+    cov["states"] += rtp.distinct
+    for sig, v in sorted(rtp.violations.items()):
+        res["violations"].append(dict(signature="C17|rtp|%s" % sig, clause=v["clause"], detail=v["detail"], count=v["count"],
+                                      replay=v["replay"]))
     n16, bad16 = arith16(tier)
     n32, bad32 = arith32()
-    cov = res["coverage"]
     cov["arith16_pairs"] = n16
     cov["arith32_pairs"] = n32
     cov["transitions"] += n16 + n32
@@ -197,6 +414,12 @@ def run(tier, seed):
 
 def replay(rep):
     r = rep["replay"]
+    if r.get("kind") == "jitter":
+        from props import c10
+        return c10.replay(rep)
+    if r.get("kind") in ("nack-lanes", "stats-lanes", "tsmap"):
+        print("lane counterexample:", r)
+        return 1
     if r.get("kind") in ("arith16", "arith32"):
         for a, b in r["pairs"]:
             f = U.uint16_gt if r["kind"] == "arith16" else U.uint32_gt
